@@ -632,6 +632,7 @@ from . import h5  # noqa
 from . import np_setops  # noqa
 from . import np_real  # noqa
 from . import comp  # noqa
+from . import fs  # noqa
 
 
 def on_new_path(i):
